@@ -25,13 +25,13 @@ Definition verify_pre (cfg : hmac_cfg) (r : hreq) : option (bytes * bytes * byte
                end
   end.
 
-(** (nonce, signed instant) when the request is admitted by the nonce step (nonceCache.admit = true) *)
+(** (nonce, signed instant) when the request is admitted by the nonce step (nonceCache.cache_admit = true) *)
 Definition admitted (cfg : hmac_cfg) (c : cache) (now : Z) (r : hreq) : option (bytes * Z) :=
   if no_secrets_configured cfg then None else
   match verify_pre cfg r with
   | None => None
   | Some (_, _, nonce, ts) =>
-      if fst (admit nonce (ts * sec) (h_tol cfg) now c) then Some (nonce, ts * sec) else None
+      if fst (cache_admit nonce (ts * sec) (h_tol cfg) now c) then Some (nonce, ts * sec) else None
   end.
 
 Section Crypto.
